@@ -32,6 +32,10 @@ namespace {
       if (not e.observe) return;
       current = e.row + " (" + e.iface + ") " + when;
       std::string fp = e.observe(c);
+      // the refusals (dozens of logic_errors per node: unset links, out-of-range positions) must leave the node as it was
+      if (e.observe(c) != fp)
+         rep.violation("C14:" + e.iface + ":refusals-change-the-node", (long long) idx, "reading every accessor of a " + e.iface + " (with the refusals that entails) a second time gives other results [" + current + "]",
+                       vf::JObj{}.str("pass", "C14").raw("ops", vf::jarr(std::vector<long long>{ c.rot })).str("state", current).done());
       rep.count("states");
       rep.member("outcomes", e.iface + ":" + std::to_string(vf::fnv(fp) % 100000));
       drain(c, e.iface, current, (long long) idx);
